@@ -19,7 +19,7 @@ RULE = ("Hypothesis draws a smooth tomogram (16..40 per side, non-cubic, numpy o
         "reproduce the tomogram block; out-of-bound behaviour (finite fill / SubvolumeOutOfBoundError) and the "
         "four loading routes are checked. Non-trivial = a compared voxel with a non-identity rotation or fractional "
         "position, or a boundary/outside class.")
-RULE += (" " + 'Also: tomogram dtypes float16 (incl. values near the top of its range), float32 and float64. Round 7: order / output_shape given as numpy integers (np.uint8, np.int64 scalar, uint8 array), a batch loader holding the same tomogram under two image ids (corner_safe must reach it), up to 4 molecules per case.')
+RULE += (" " + 'Also: tomogram dtypes float16 (incl. values near the top of its range), float32 and float64. Round 7: order / output_shape given as numpy integers (np.uint8, np.int64 scalar, uint8 array), a batch loader holding the same tomogram under two image ids (corner_safe must reach it), up to 4 molecules per case. Engine `loader-grid` (enumerated, 24 cases): loader kind x corner_safe x order x two boxes with interior molecules in generic orientations spread over three z-chunks in a cyclic order.')
 TOLERANCES = {"order0": "exact (voxels within 1e-3 of a rounding tie skipped)", "order1": "1e-4 * range",
               "order3": "2e-2 * range, compared >= 3 voxels inside the tomogram (prefilter of the cropped window)",
               "exact block": "1e-5 * range for every order"}
@@ -285,6 +285,25 @@ def labels(d):
     return sorted(labs)
 
 
+def loader_grid(tier="quick"):
+    """enumerated: loader kind x corner_safe x order x two boxes x two generic orientations, interior molecules (the
+    combinations every loader option must survive, independent of what the random draw happens to cover)"""
+    rots = [[0.5, 0.4, -0.6], [-0.7, 0.3, 0.6]]
+    for lk in ("single", "batch"):
+        for cs in (False, True):
+            for order in (0, 1, 3):
+                for shape in ([7, 7, 7], [4, 9, 6]):
+                    yield {"tshape": [32, 30, 34], "seed": 3, "sigma": 1.0, "shape": shape, "order": order, "scale": 1.0 if order != 1 else 0.5,
+                           "corner_safe": cs, "loader_kind": lk, "argform": "py",
+                           "mols": [{"c": [15.3, 16.2, 14.8], "rot": {"cls": "generic", "rv": rots[0]}, "classes": ["interior"]},
+                                    {"c": [25.0, 12.5, 17.25], "rot": {"cls": "generic", "rv": rots[1]}, "classes": ["interior"]},
+                                    {"c": [7.0, 15.0, 16.0], "rot": {"cls": "identity", "rv": [0.0, 0.0, 0.0]}, "classes": ["interior"]}],
+                           # three z-chunks visited in the order (1, 2, 0) by the molecules: a 3-cycle
+                           "chunks": None if order == 3 else [[11, 10, 11], [30], [10, 24]], "kind": "interior", "exact": False, "tdtype": "float32"}
+
+
 def engines():
     return [Engine("sampling", judge, strategy=cases(), nontrivial=nontrivial, labels=labels,
-                   cases={"quick": 400, "thorough": 20000}, shards={"quick": 8, "thorough": 16})]
+                   cases={"quick": 400, "thorough": 20000}, shards={"quick": 8, "thorough": 16}),
+            Engine("loader-grid", judge, enumerate=loader_grid, nontrivial=nontrivial, labels=labels,
+                   cases={"quick": 24, "thorough": 24}, shards={"quick": 4, "thorough": 4})]
